@@ -35,6 +35,10 @@ def finish(pid, tier, seed, mod, results, known, wall):
         if 'crash' in r:
             checker_errors.append(f"unit {r['unit']} crashed: {r['crash'][-1500:]}")
             continue
+        if 'undecided_unit' in r:
+            # a unit that timed out or whose process died decides nothing: undecided, never a violation
+            undecided_units.append({'function': f"unit {r['unit']}", 'reason': r['undecided_unit']})
+            continue
         for a in r.get('assumptions', []):
             if a not in assumptions:
                 assumptions.append(a)
